@@ -72,7 +72,15 @@ def run(repo: Repo, rep: Report, tier: str) -> None:
                 rep.ok("R19.2", f"{side} stub path is hook-free", None)
             continue
         if pre_decl is None or post_decl is None:
-            continue  # discriminator dispatcher path etc. (handled below)
+            # discriminator dispatcher path etc.: the body returns `<variant dispatch>` before the hooks are consulted.  The
+            # variant's own method runs the hooks, so a hook line here fires the hook twice (once with cls=Base, once with the variant).
+            if hook_lines:
+                rep.violation("R19.2", fnkey, f"{side} dispatching path (returns before the body) emits `{hook_lines[0][:70]}`",
+                              "a class-level discriminator root only dispatches to the variant's method, which runs the hooks itself: a hook call "
+                              "before the dispatch fires the hook twice and feeds the first result into the second", generated="\n".join(texts)[:800])
+            else:
+                rep.ok("R19.2", f"{side} dispatching path is hook-free", None, nontrivial=False)
+            continue
         n[side] += 1
         pre_name = "__pre_serialize__" if side == "pack" else "__pre_deserialize__"
         post_name = "__post_serialize__" if side == "pack" else "__post_deserialize__"
